@@ -23,6 +23,7 @@ func c14(c *eng.Ctx, r *eng.Report) {
 		"R14.4 Sign/VerifySig consult no process-local mutable state (no cache, package-variable store, map range, clock or randomness in their cone), so the verdict is a function of (key, message, signature) only; " +
 		"R14.5 wherever the bytes of a big integer are placed into a fixed-width big-endian buffer they are right-aligned (`copy(buf[W-len(b):], b)`), so values with leading zero bytes encode faithfully. " +
 		"R14.6 keys, signatures and scalars are values — Sign, VerifySig, GeneratePubkey, AggregatePubkeys and hashToG1 perform in-place curve operations only on objects they allocate (never through an argument or a shallow copy of one: Signature/Pubkey wrap a pointer), and every modular reduction of a scalar in the package is modulo the group order, so the scalar Sign multiplies by is the one GeneratePubkey exponentiates. " +
+		"R14.7 VerifySig is the only function of the node that evaluates the signature pairing (no second, e.g. aggregated, definition of validity), and the scalar hex printer/parser are an inverse pair. " +
 		"Not decided: bilinearity, non-degeneracy, subgroup membership, soundness (algebraic; the baseline's curve tests sample them)."
 	r.Assume = []string{"bn256 Pair / PairIsEuqal implement the optimal Ate pairing and equality in GT"}
 	c14Verify(c, r)
@@ -38,6 +39,7 @@ func c14(c *eng.Ctx, r *eng.Report) {
 		{"consensus/groupsig", "AggregatePubkeys"}, {"consensus/groupsig", "hashToG1"},
 	})
 	groupsigScalarField(c, r, "R14.6")
+	c14Verifiers(c, r)
 }
 
 func c14Verify(c *eng.Ctx, r *eng.Report) {
@@ -345,5 +347,55 @@ func c14LeftPad(c *eng.Ctx, r *eng.Report) {
 				r.Check(ok, rule, key, c.Pos(s.Pos()), "big-integer bytes are right-aligned in the fixed-width buffer", "the bytes of a big integer are copied to the start of a fixed-width big-endian buffer instead of to buf[W-len(b):]: a value with a leading zero byte (1 in 256) is encoded shifted, e.g. H(m) becomes an off-curve point and an honest signature fails to verify")
 			}
 		}
+	}
+}
+
+// c14Verifiers: signature validity is decided in one place. Whoever evaluates
+// the pairing is a verifier; an additional one (a batch or combined check) is
+// a second definition of "valid" that the property does not allow without
+// review — a single aggregated equation over several signatures accepts
+// pairs of invalid signatures whose errors cancel.
+func c14Verifiers(c *eng.Ctx, r *eng.Report) {
+	const rule = "R14.7"
+	r.Min(rule, 2)
+	n := 0
+	for _, fn := range c.ModFuncs() {
+		if c.IsTestFunc(fn) || fn.Blocks == nil || strings.Contains(eng.FuncPkgPath(fn), "/groupsig/bn256") || strings.Contains(eng.FuncPkgPath(fn), "/eth_crypto/") || strings.Contains(eng.FuncPkgPath(fn), "/src/vm") {
+			continue
+		}
+		uses := false
+		for _, s := range eng.Sites(fn) {
+			name := s.Name()
+			if strings.HasSuffix(name, "groupsig/bn256.PairIsEuqal") || strings.HasSuffix(name, "groupsig/bn256.Pair") || strings.HasSuffix(name, "groupsig/bn256.Miller") || strings.HasSuffix(name, "groupsig/bn256.PairingCheck") {
+				uses = true
+			}
+		}
+		if !uses {
+			continue
+		}
+		n++
+		r.Check(eng.FuncName(fn) == "consensus/groupsig.VerifySig", rule, "pairing-user:"+eng.FuncName(fn), c.Pos(fn.Pos()), "the one verifier", eng.FuncName(fn)+" evaluates the pairing itself: a second definition of signature validity next to VerifySig (for instance one equation over several signatures, which accepts sig1+d, sig2−d for any d); every acceptance must go through VerifySig's single-signature equation")
+	}
+	r.Check(n >= 1, rule, "pairing-user:any", "", fmt.Sprintf("%d pairing users", n), "no user of the pairing found (VerifySig expected)")
+	// scalar hex codec: printer and parser are an inverse pair (big.Int Text(16) drops leading zeros and may have
+	// an odd number of digits, which only SetString(·,16) reads back)
+	get := c.Func(gsPkg, "(*BnInt).getHexString")
+	set := c.Func(gsPkg, "(*BnInt).setHexString")
+	if r.Anchor(get != nil && set != nil, rule, "groupsig.(*BnInt).getHexString/setHexString") {
+		text16, setString16 := false, false
+		for _, call := range callsNamed(get, "big.Int).Text") {
+			if k, ok := eng.ConstInt(call.Call.Args[1]); ok && k == 16 {
+				text16 = true
+			}
+		}
+		for _, call := range callsNamed(set, "big.Int).SetString") {
+			if k, ok := eng.ConstInt(call.Call.Args[2]); ok && k == 16 {
+				setString16 = true
+			}
+		}
+		evenPrinter := len(callsNamed(get, "hex.EncodeToString", "common.Bytes2Hex", "common.ToHex")) > 0
+		bytesParser := len(callsNamed(set, "common.Hex2Bytes", "common.FromHex", "hex.DecodeString")) > 0
+		ok := (text16 && setString16 && !bytesParser) || (evenPrinter && bytesParser && !text16)
+		r.Check(ok, rule, "BnInt:hex-pair", c.Pos(set.Pos()), "printer Text(16) with parser SetString(·,16) (or an even-length byte printer with a byte parser)", fmt.Sprintf("the scalar hex printer and parser are not an inverse pair (Text(16)=%v, SetString(16)=%v, even-length printer=%v, byte parser=%v): a key or id whose hex form has an odd number of digits is parsed back to a different value", text16, setString16, evenPrinter, bytesParser))
 	}
 }
